@@ -25,6 +25,7 @@ func probe(args []string) {
 			fmt.Println(title, "ERR", err)
 			return
 		}
+		wd.register()
 		for _, in := range insts {
 			if err := wd.create(in); err != nil {
 				fmt.Println(title, "create err", err)
